@@ -702,3 +702,104 @@ Theorem session_example_two_default_locales :
   /\ nth 6 (run false (mknow 2021 3 4) initial ex_ops) (OUnit (Ok tt)) = OStr (Ok [100;101]).
 Proof. exact example_session. Qed.
 Print Assumptions session_example_two_default_locales.
+
+(* ------------------------------------------------------------ localized month and weekday names, every shipped locale (Proofs/C08Locale.v) *)
+From PV Require Import Proofs.C08Locale.
+
+(* month names: from_format(dt.format("YYYY MMMM DD", locale), "YYYY MMMM DD", locale) gives dt's year, month and day for EVERY shipped
+   locale, every month and every year 1000..9999 / day field.  _partial: excluded beyond the listed findings are the locales whose month
+   names contain decimal digits — ja and ko ("1月", "1월"): the assembled pattern then tells digits apart, the digit-blind lifting does not
+   apply (they are covered by the correspondence streams over the locale tables) *)
+Theorem from_format_inverts_localized_month_names_partial : forall rs zones now L t,
+  In L locales -> name_in (l_name L) digit_months_wide = false ->
+  1 <= t_month t <= 12 -> 1000 <= t_year t <= 9999 -> 0 <= t_day t < 100 ->
+  bind (format (l_name L) t (fmtA T_MMMM)) (fun s => parse rs zones (l_name L) now s (fmtA T_MMMM)) =
+  Ok (t_year t, t_month t, t_day t, 0, 0, 0, 0, None).
+Proof. exact from_format_inverts_month_wide. Qed.
+Print Assumptions from_format_inverts_localized_month_names_partial.
+
+(* abbreviated month names, "YYYY MMM DD": as above; excluded: ja, ko, zh (digits in the abbreviations) *)
+Theorem from_format_inverts_localized_month_abbr_partial : forall rs zones now L t,
+  In L locales -> name_in (l_name L) digit_months_abbr = false ->
+  1 <= t_month t <= 12 -> 1000 <= t_year t <= 9999 -> 0 <= t_day t < 100 ->
+  bind (format (l_name L) t (fmtA T_MMM)) (fun s => parse rs zones (l_name L) now s (fmtA T_MMM)) =
+  Ok (t_year t, t_month t, t_day t, 0, 0, 0, 0, None).
+Proof. exact from_format_inverts_month_abbr. Qed.
+Print Assumptions from_format_inverts_localized_month_abbr_partial.
+
+(* weekday names, all 27 locales, every valid date of the years 1000..9999 (the name rendered is that of the date's weekday; _check_parsed
+   moves the date to that weekday of its week, i.e. leaves it): "dddd YYYY-MM-DD", "ddd YYYY-MM-DD", "YYYY-MM-DD ddd" without exception *)
+Theorem from_format_inverts_localized_weekday_names : forall rs zones now L t,
+  In L locales -> date_ok (t_year t) (t_month t) (t_day t) = true -> 1000 <= t_year t <= 9999 ->
+  bind (format (l_name L) t (fmtB T_dddd)) (fun s => parse rs zones (l_name L) now s (fmtB T_dddd)) = Ok (t_year t, t_month t, t_day t, 0, 0, 0, 0, None) /\
+  bind (format (l_name L) t (fmtB T_ddd)) (fun s => parse rs zones (l_name L) now s (fmtB T_ddd)) = Ok (t_year t, t_month t, t_day t, 0, 0, 0, 0, None) /\
+  bind (format (l_name L) t (fmtC T_ddd)) (fun s => parse rs zones (l_name L) now s (fmtC T_ddd)) = Ok (t_year t, t_month t, t_day t, 0, 0, 0, 0, None).
+Proof.
+  exact (fun rs zones now L t HL Hok Hy =>
+    conj (from_format_inverts_weekday_wide_first rs zones now L t HL Hok Hy)
+   (conj (from_format_inverts_weekday_abbr_first rs zones now L t HL Hok Hy)
+         (from_format_inverts_weekday_abbr_last rs zones now L t HL Hok Hy))).
+Qed.
+Print Assumptions from_format_inverts_localized_weekday_names.
+
+(* "YYYY-MM-DD dddd" (wide name last): every locale and weekday EXCEPT exactly the listed finding tr-cumartesi-prefix (tr, Saturday) ... *)
+Theorem from_format_inverts_localized_weekday_name_last : forall rs zones now L t,
+  In L locales -> date_ok (t_year t) (t_month t) (t_day t) = true -> 1000 <= t_year t <= 9999 ->
+  ~ (l_name L = tr_name /\ wd_of t = 5) ->
+  bind (format (l_name L) t (fmtC T_dddd)) (fun s => parse rs zones (l_name L) now s (fmtC T_dddd)) = Ok (t_year t, t_month t, t_day t, 0, 0, 0, 0, None).
+Proof. exact from_format_inverts_weekday_wide_last. Qed.
+Print Assumptions from_format_inverts_localized_weekday_name_last.
+
+(* ... where the check of that pair fails in the model (the re.sub pass stops at the prefix "Cuma" of "Cumartesi"; from_format_tr_saturday_refuted) *)
+Theorem from_format_tr_saturday_is_the_only_exception :
+  exists L, In L locales /\ l_name L = tr_name /\ chkW l_days_wide (fmtC T_dddd) repC (expC T_dddd) (namesC T_dddd) L 5 = false.
+Proof. exact chkC_dddd_tr_saturday. Qed.
+Print Assumptions from_format_tr_saturday_is_the_only_exception.
+
+(* ------------------------------------------------------------ from_format on the named formats (DateTime._FORMATS, locale en), Proofs/C08Named.v *)
+From PV Require Import Proofs.C08Named.
+
+(* named_dt_ok t: fields non-negative and of the usual widths, year 1000..9999, a valid date, aware with a whole-minute offset below 100 h *)
+(* to_atom_string / to_w3c_string (YYYY-MM-DDTHH:mm:ssZ) are inverted to the second for every such DateTime *)
+Theorem from_format_inverts_atom_w3c : forall rs zones now t, dt_in_range t -> 1000 <= t_year t <= 9999 -> dt_widths t ->
+  bind (string_helper [116;111;95;97;116;111;109;95;115;116;114;105;110;103] t) (fun s => parse rs zones en now s (nf k_atom)) =
+  Ok (t_year t, t_month t, t_day t, t_hour t, t_minute t, t_second t, 0, Some (TzFixed (t_off t))) /\
+  bind (string_helper [116;111;95;119;51;99;95;115;116;114;105;110;103] t) (fun s => parse rs zones en now s (nf k_w3c)) =
+  Ok (t_year t, t_month t, t_day t, t_hour t, t_minute t, t_second t, 0, Some (TzFixed (t_off t))).
+Proof. exact from_format_inverts_atom. Qed.
+Print Assumptions from_format_inverts_atom_w3c.
+
+(* to_rfc1123_string / to_rfc2822_string / to_rss_string (ddd, DD MMM YYYY HH:mm:ss ZZ): inverted for every DateTime — all 7 weekday names,
+   12 month names and both offset signs by one kernel computation, every digit by shape invariance *)
+Theorem from_format_inverts_rfc1123_rfc2822_rss : forall rs zones now t, named_dt_ok t ->
+  bind (string_helper helper_rfc1123 t) (fun s => parse rs zones en now s (nf k_rfc1123)) =
+    Ok (t_year t, t_month t, t_day t, t_hour t, t_minute t, t_second t, 0, Some (TzFixed (t_off t))) /\
+  bind (string_helper helper_rfc2822 t) (fun s => parse rs zones en now s (nf k_rfc2822)) =
+    Ok (t_year t, t_month t, t_day t, t_hour t, t_minute t, t_second t, 0, Some (TzFixed (t_off t))) /\
+  bind (string_helper helper_rss t) (fun s => parse rs zones en now s (nf k_rss)) =
+    Ok (t_year t, t_month t, t_day t, t_hour t, t_minute t, t_second t, 0, Some (TzFixed (t_off t))).
+Proof. exact from_format_inverts_rfc1123_rfc2822_rss. Qed.
+Print Assumptions from_format_inverts_rfc1123_rfc2822_rss.
+
+(* to_rfc822_string / to_rfc1036_string (ddd, DD MMM YY HH:mm:ss ZZ): the two-digit year is read into 1969..2068, so exactly the DateTimes
+   of those years are recovered ... *)
+Theorem from_format_inverts_rfc822_rfc1036_in_window : forall rs zones now t, named_dt_ok t -> 1969 <= t_year t <= 2068 ->
+  bind (string_helper helper_rfc822 t) (fun s => parse rs zones en now s (nf k_rfc822)) =
+    Ok (t_year t, t_month t, t_day t, t_hour t, t_minute t, t_second t, 0, Some (TzFixed (t_off t))) /\
+  bind (string_helper helper_rfc1036 t) (fun s => parse rs zones en now s (nf k_rfc1036)) =
+    Ok (t_year t, t_month t, t_day t, t_hour t, t_minute t, t_second t, 0, Some (TzFixed (t_off t))).
+Proof. exact from_format_inverts_rfc822_rfc1036. Qed.
+Print Assumptions from_format_inverts_rfc822_rfc1036_in_window.
+
+(* ... outside the window the century is lost and the weekday name then moves the day: 2069-07-06 comes back as 1969-07-05 *)
+Theorem from_format_rfc822_outside_window_refuted :
+  bind (string_helper helper_rfc822 (mkpdt 2069 7 6 13 14 15 0 true 19800 [] [])) (fun s => parse false [] en (mknow 2021 3 4) s (nf k_rfc822)) =
+  Ok (1969, 7, 5, 13, 14, 15, 0, Some (TzFixed 19800)).
+Proof. exact rfc822_outside_window_witness. Qed.
+Print Assumptions from_format_rfc822_outside_window_refuted.
+
+(* to_cookie_string / to_rfc850_string end in the token zz, which from_format does not support: ValueError on EVERY text *)
+Theorem from_format_rejects_cookie_rfc850_formats : forall rs zones now time,
+  parse rs zones en now time (nf k_cookie) = Raise E_ValueError /\ parse rs zones en now time (nf k_rfc850) = Raise E_ValueError.
+Proof. exact from_format_rejects_cookie_rfc850. Qed.
+Print Assumptions from_format_rejects_cookie_rfc850_formats.
